@@ -60,8 +60,9 @@ def decay_momentum(repo, chk):
             masses = {id(core): m0, id(b): m1, id(c): m2}
 
             def mass_hook(tr, args, kwargs, node, _m=masses):
-                a = [x for x in args if not (isinstance(x, SelfObj) and x.cls is cls)]
-                return _m[id(a[0])]
+                b_ = Translator.bound_args(pm, args, kwargs)
+                first = pm.all_param_names()[1] if pm.all_param_names()[0] == "self" else pm.all_param_names()[0]
+                return _m[id(b_[first])]
 
             tr = Translator(repo, hooks={pm.key: mass_hook, "concrete_zeros": True}, max_depth=4)
             so = SelfObj(cls, {"core": core, "outs": [b, c], "below_threshold": False})
@@ -89,6 +90,10 @@ def run(repo, chk, tier):
     barrier_options(repo, chk)
     decay_momentum(repo, chk)
     decay_amplitudes(repo, chk)
+    # the sum over chains pairs per-chain lists position by position (shared with C03)
+    from .c03_order import check_selection_order
+
+    check_selection_order(repo, chk)
     # theta_k of the closed form is the helicity angle after chained boosts; q0 / p0 of the barrier factors follow the
     # current resonance mass: frame typing of the chain boosts and soundness of memoisation
     from ..cacheown import check_memo_soundness
@@ -220,7 +225,7 @@ def barrier(repo, chk):
 def barrier_options(repo, chk):
     """the option flags of get_barrier_factor2, one at a time (each flag's documented effect on q^l B'_l)"""
     from .c15_kernels import BWF, ref_poly
-    chk.rule("F-baropt", "get_barrier_factor2 with one option flag changed at a time (l = 0..4): barrier_factor_norm divides by q0^l (so the factor is (q/q0)^l B'_l, equal to one at q = q0); has_ql=False drops q^l; has_bprime=False leaves q^l; barrier_factor_mass multiplies by m^-l; force_min_l uses the smallest l for every entry")
+    chk.rule("F-baropt", "get_barrier_factor2 with one option flag changed at a time (l = 0..4) and with every combination of its six flags (l = 1, 2, 3): barrier_factor_norm divides by q0^l (so the factor is (q/q0)^l B'_l, equal to one at q = q0); has_ql=False drops q^l; has_bprime=False leaves q^l; barrier_factor_mass multiplies by m^-l; force_min_l uses the smallest l for every l-dependent piece (the normalisation included); no_q0 sets q0 = 1")
     cls = repo.cls(CORE + "::HelicityDecay")
     fn = cls.methods["get_barrier_factor2"]
     q, q0, d, m = sp.symbols("q q0 d m", positive=True)
@@ -237,34 +242,56 @@ def barrier_options(repo, chk):
     def B2(l):
         return ref_poly(int(l), (q0 * d) ** 2) / ref_poly(int(l), (q * d) ** 2)
 
-    variants = [
-        ("barrier_factor_norm", {"barrier_factor_norm": True}, lambda l: (q / q0) ** (2 * l) * B2(l)),
-        ("has_ql=False", {"has_ql": False}, lambda l: B2(l)),
-        ("has_bprime=False", {"has_bprime": False}, lambda l: q ** (2 * l)),
-        ("barrier_factor_mass", {"barrier_factor_mass": True}, lambda l: q ** (2 * l) * B2(l) / m ** (2 * l)),
-    ]
-    for label, change, want in variants:
-        attrs = dict(base)
-        attrs.update(change)
-        attrs["ls_list"] = tuple((l, sp.Integer(0)) for l in ls)
-        tr = Translator(repo, hooks={BWF + "get_bprime_coeff": coeff_hook, "stack_as_array": True, "concrete_zeros": True}, max_depth=6)
-        try:
-            out = tr.call_fn(fn, [m, q ** 2, q0 ** 2, d], self_obj=SelfObj(cls, attrs))
-        except Unmodelled as e:
-            raise AnalysisError("get_barrier_factor2 not translatable with %s: %s" % (label, e))
-        flat = np.asarray(out, dtype=object).reshape(-1)
-        if len(flat) != len(ls):
-            raise AnalysisError("get_barrier_factor2 (%s) returned %d components for %d orbital momenta" % (label, len(flat), len(ls)))
-        bad = None
-        for l, got in zip(ls, flat):
-            ok, detail = equal(sp.sympify(got) ** 2, want(l))
-            if ok is None:
-                raise AnalysisError("E6 normaliser too weak for get_barrier_factor2 (%s), l=%s: %s" % (label, l, detail))
-            if not ok and bad is None:
-                bad = (l, got, detail)
-        chk.oblige("F-baropt", "get_barrier_factor2 with %s, l = 0..4" % label, bad is None)
-        if bad:
-            chk.violation("F-baropt", fn.key, "%s:l=%s" % (label, bad[0]), "with %s the factor for l=%s is %s, expected (squared) %s: %s" % (label, bad[0], bad[1], want(bad[0]), bad[2]), file=CORE, line=fn.lineno)
+    import itertools
+
+    flags = ("barrier_factor_norm", "has_ql", "has_bprime", "barrier_factor_mass", "force_min_l", "no_q0")
+    n_comb = 0
+    for l_list in ([sp.Integer(k) for k in range(5)], [sp.Integer(1), sp.Integer(2), sp.Integer(3)]):
+        for combo in itertools.product((False, True), repeat=len(flags)):
+            change = dict(zip(flags, combo))
+            if l_list[0] == 0 and (change["force_min_l"] or sum(v != base[k] for k, v in change.items()) > 1):
+                continue   # l = 0..4: one flag at a time (min l = 0 makes force_min_l trivial); l = 1..3: every combination
+            label = ", ".join("%s=%s" % (k, v) for k, v in change.items() if v != base[k]) or "defaults"
+            label += " (l = %s)" % ",".join(str(x) for x in l_list)
+            q0e = sp.Integer(1) if change["no_q0"] else q0
+
+            def want(l, _c=change, _ls=l_list, _q0=q0e):
+                le = min(_ls) if _c["force_min_l"] else l
+                v = sp.Integer(1)
+                if _c["has_bprime"]:
+                    v = v * ref_poly(int(le), (_q0 * d) ** 2) / ref_poly(int(le), (q * d) ** 2)
+                    if _c["barrier_factor_norm"]:
+                        v = v / _q0 ** (2 * le)
+                if _c["has_ql"]:
+                    v = v * q ** (2 * le)
+                if _c["barrier_factor_mass"]:
+                    v = v / m ** (2 * l)
+                return v
+
+            attrs = dict(base)
+            attrs.update(change)
+            attrs["ls_list"] = tuple((l, sp.Integer(0)) for l in l_list)
+            tr = Translator(repo, hooks={BWF + "get_bprime_coeff": coeff_hook, "stack_as_array": True, "concrete_zeros": True}, max_depth=6)
+            try:
+                out = tr.call_fn(fn, [m, q ** 2, q0 ** 2, d], self_obj=SelfObj(cls, attrs))
+            except Unmodelled as e:
+                raise AnalysisError("get_barrier_factor2 not translatable with %s: %s" % (label, e))
+            flat = np.asarray(out, dtype=object).reshape(-1)
+            if len(flat) != len(l_list):
+                raise AnalysisError("get_barrier_factor2 (%s) returned %d components for %d orbital momenta" % (label, len(flat), len(l_list)))
+            bad = None
+            for l, got in zip(l_list, flat):
+                ok, detail = equal(sp.sympify(got) ** 2, want(l))
+                if ok is None:
+                    raise AnalysisError("E6 normaliser too weak for get_barrier_factor2 (%s), l=%s: %s" % (label, l, detail))
+                if not ok and bad is None:
+                    bad = (l, got, detail)
+            n_comb += 1
+            chk.oblige("F-baropt", "get_barrier_factor2 with %s" % label, bad is None)
+            if bad:
+                chk.violation("F-baropt", fn.key, "%s:l=%s" % (label, bad[0]), "with %s the factor for l=%s is %s, expected (squared) %s: %s" % (label, bad[0], bad[1], want(bad[0]), bad[2]), file=CORE, line=fn.lineno)
+    if n_comb < 60:
+        raise AnalysisError("F-baropt: only %d option combinations evaluated" % n_comb)
 
 
 def decay_amplitudes(repo, chk):
